@@ -283,6 +283,46 @@ RollGather(sh, k, ax) ==
 \* diagonal of a square 2-D array (einsum "ii->i")
 DiagGather(sh) == [k \in 1..sh[1] |-> (k - 1) * sh[2] + k]
 
+\* ---------------------------------------------------------------- memory layout of a fresh elementwise result
+\* NumPy allocates the output of a ufunc in "K" order: the axis order of the operands' memory is kept.  This is the
+\* insertion sort of nditer (npyiter_find_best_axis_ordering): iterator position 1 is the innermost (fastest) axis,
+\* initially the last array axis; an axis moves inwards past another one only if every operand that has non-zero
+\* strides on both says so (in a conflict C order wins).
+\* opst : sequence (one per array operand) of per-axis element strides aligned to the result's n axes (0 = broadcast)
+AbsN(x) == IF x < 0 THEN -x ELSE x
+KOrderPerm(n, opst) ==
+  LET \* decide, for iterator axes holding array axes j0 (outer candidate) and j1 (the one further in)
+      Cmp(j0, j1) ==    \* "swap" | "stay" | "ambig"
+        LET rel == {i \in 1..Len(opst) : opst[i][j0] # 0 /\ opst[i][j1] # 0} IN
+        IF rel = {} THEN "ambig"
+        ELSE IF \A i \in rel : AbsN(opst[i][j1]) > AbsN(opst[i][j0]) THEN "swap" ELSE "stay"
+      \* position at which perm[i0] must be inserted, scanning i1 = i0-1 down to 1
+      RECURSIVE Pos(_, _, _, _)
+      Pos(perm, i0, i1, ipos) ==
+        IF i1 < 1 THEN ipos
+        ELSE LET c == Cmp(perm[i0], perm[i1]) IN
+             IF c = "ambig" THEN Pos(perm, i0, i1 - 1, ipos)
+             ELSE IF c = "swap" THEN Pos(perm, i0, i1 - 1, i1)
+             ELSE ipos
+      Insert(perm, i0, ipos) ==
+        [k \in 1..n |-> IF k < ipos \/ k > i0 THEN perm[k] ELSE IF k = ipos THEN perm[i0] ELSE perm[k - 1]]
+      RECURSIVE Sort(_, _)
+      Sort(perm, i0) == IF i0 > n THEN perm
+                        ELSE LET ip == Pos(perm, i0, i0 - 1, i0) IN Sort(IF ip = i0 THEN perm ELSE Insert(perm, i0, ip), i0 + 1)
+  IN Sort([i \in 1..n |-> n + 1 - i], 2)
+\* element strides of the freshly allocated output: iterator position 1 is contiguous
+KOrderStrides(sh, perm) ==
+  LET n == Len(sh)
+      posOf(a) == CHOOSE k \in 1..n : perm[k] = a
+      RECURSIVE P(_)
+      P(k) == IF k <= 1 THEN 1 ELSE sh[perm[k - 1]] * P(k - 1)
+  IN [a \in 1..n |-> P(posOf(a))]
+\* per-axis element strides of an operand with index map imap and shape osh, aligned (right) to n result axes
+AlignedStrides(imap, osh, n) ==
+  LET m == Len(osh) cst == Strides(osh) IN
+  [a \in 1..n |-> IF a <= n - m THEN 0
+                   ELSE LET j == a - (n - m) IN IF osh[j] < 2 THEN 0 ELSE imap[1 + cst[j]] - imap[1]]
+
 \* ---------------------------------------------------------------- strided-view test (NumPy returns a view of a
 \* reshape iff the result can be described by strides).  imap = buffer cell of every element, sh = its shape.
 Affine(imap, sh) ==
